@@ -3,7 +3,7 @@
    Abstract specification: V.C11.Spec (what was added, in insertion order; astep = None means "outside the protocol").
    R (V.C11.Proofs) is the simulation relation; it contains the invariant (spans inside [header, top], disjoint, top <= size <= capacity). *)
 Require Import V.Lib.Base V.Lib.Calls V.Gen.Consts_C11 V.C11.Model V.C11.Spec
-        V.C11.Proofs V.C11.Proofs2 V.C11.Proofs3 V.C11.Proofs4 V.C11.Proofs5.
+        V.C11.Proofs V.C11.Proofs2 V.C11.Proofs3 V.C11.Proofs4 V.C11.Proofs5 V.C11.Proofs6.
 Local Open Scope Z_scope.
 
 (* Refinement, one operation: every admissible operation succeeds on the concrete builder (no assertion, no fault),
@@ -110,12 +110,12 @@ Print Assumptions c11_no_zero_weight.
 
 (* Order independence: from any state in which a new rule can be described (frozen, or nothing started), describing
    the head first or the body first yields the same end() call - the described rule with weight-0 literals dropped -
-   and the same answers to every query. *)
-Theorem c11_order_independent : forall c a ht hs bs k b ls,
+   and the same answers to every query (thr: whether the receiver of that end() throws makes no difference). *)
+Theorem c11_order_independent : forall c a ht hs bs k b ls thr,
   R c a -> fresh a -> ht = 0 \/ ht = 1 -> body_start_ok bs k b ->
   exists c1 c2,
-    csteps c (describe_head ht hs ++ describe_body bs ls ++ [OEnd true]) = Ok (c1, [described ht hs k b ls]) /\
-    csteps c (describe_body bs ls ++ describe_head ht hs ++ [OEnd true]) = Ok (c2, [described ht hs k b ls]) /\
+    csteps c (describe_head ht hs ++ describe_body bs ls ++ [OEnd true thr]) = Ok (c1, [described ht hs k b ls]) /\
+    csteps c (describe_body bs ls ++ describe_head ht hs ++ [OEnd true thr]) = Ok (c2, [described ht hs k b ls]) /\
     cquery c1 true = cquery c2 true /\
     q_head c1 = hs /\ q_btype c1 = k /\ q_bound c1 = b /\
     (if k =? 0 then q_body c1 = map fst (kept k ls) else q_wlits c1 = kept k ls).
@@ -124,6 +124,72 @@ Print Assumptions c11_order_independent.
 
 Example c11_order_nonvacuous : forall cap, HDR <= cap -> R (cnew cap) anew /\ fresh anew /\ body_start_ok (OStartSum 7) 1 7.
 Proof. intros cap H. split; [now apply R_new|]. split; [right; auto | right; auto]. Qed.
+
+(* end(out) with a receiver that may THROW (OEnd out thr; thr = the receiver throws from rule()/minimize()).
+   end() sets the frozen flag first and hands the rule over afterwards, so after end - whether or not the receiver
+   throws - the builder is frozen, the receiver got exactly the finished rule, head()/body()/sum()/bound()/rule() still
+   return the finished rule (all views unchanged by end), and every start operation behaves exactly as on a new
+   builder: it begins from an empty rule. *)
+Theorem c11_end_freezes : forall c a out thr a' calls,
+  R c a -> astep a (OEnd out thr) = Some (a', calls) ->
+  exists c', cstep c (OEnd out thr) = Ok (c', calls) /\ R c' a' /\
+    frz c' = true /\ afrozen a' = true /\
+    calls = (if out then [acall a] else []) /\
+    q_head c' = hatoms a /\ styp (hd c') = hkind a /\ q_btype c' = bkind a /\ q_bound c' = bbound a /\
+    (bkind a = 0 -> q_body c' = map fst (blits a)) /\ (bkind a <> 0 -> q_wlits c' = blits a) /\
+    (forall full, cquery c' full = aquery a full) /\ (forall full, cquery c' full = cquery c full) /\
+    (forall s, is_start s = true -> astep a' s = astep anew s) /\
+    (forall s a2 k, is_start s = true -> astep anew s = Some (a2, k) -> exists c2, cstep c' s = Ok (c2, k) /\ R c2 a2).
+Proof. exact end_freezes. Qed.
+Print Assumptions c11_end_freezes.
+
+(* the throw flag changes neither the state nor the call (only the status the harness prints) *)
+Theorem c11_end_throw_irrelevant : forall c a out thr1 thr2,
+  cstep c (OEnd out thr1) = cstep c (OEnd out thr2) /\ astep a (OEnd out thr1) = astep a (OEnd out thr2).
+Proof. intros. split; reflexivity. Qed.
+Print Assumptions c11_end_throw_irrelevant.
+
+(* Nothing is inherited: after end (accepted or refused) a next rule that defines ONLY a head is reported and handed
+   on as that head with an empty normal body; one that defines ONLY a body as that body with an empty head; one that
+   defines both, in either order, as exactly what was described. *)
+Theorem c11_refused_end_then_next : forall c a out thr a' calls,
+  R c a -> astep a (OEnd out thr) = Some (a', calls) ->
+  exists c', cstep c (OEnd out thr) = Ok (c', calls) /\ R c' a' /\ fresh a' /\
+    (forall ht hs thr2, ht = 0 \/ ht = 1 ->
+       exists c1, csteps c' (describe_head ht hs ++ [OEnd true thr2]) = Ok (c1, [CRule ht hs []]) /\
+         q_head c1 = hs /\ q_btype c1 = 0 /\ q_body c1 = []) /\
+    (forall bs k b ls thr2, body_start_ok bs k b ->
+       exists c1, csteps c' (describe_body bs ls ++ [OEnd true thr2]) = Ok (c1, [described 0 [] k b ls]) /\
+         q_head c1 = [] /\ q_btype c1 = k /\ q_bound c1 = b /\
+         (if k =? 0 then q_body c1 = map fst (kept k ls) else q_wlits c1 = kept k ls)) /\
+    (forall ht hs bs k b ls thr2, ht = 0 \/ ht = 1 -> body_start_ok bs k b ->
+       exists c1 c2,
+         csteps c' (describe_head ht hs ++ describe_body bs ls ++ [OEnd true thr2]) = Ok (c1, [described ht hs k b ls]) /\
+         csteps c' (describe_body bs ls ++ describe_head ht hs ++ [OEnd true thr2]) = Ok (c2, [described ht hs k b ls]) /\
+         cquery c1 true = cquery c2 true /\ q_head c1 = hs /\ q_btype c1 = k /\ q_bound c1 = b /\
+         (if k =? 0 then q_body c1 = map fst (kept k ls) else q_wlits c1 = kept k ls)).
+Proof. exact refused_end_then_next. Qed.
+Print Assumptions c11_refused_end_then_next.
+
+(* non-vacuity: the integrity constraint ":- 2, not 3." is described and its end(out) is refused (thr = true): the
+   hypotheses hold for a reachable state with a non-empty body, and the concrete run of the whole scenario
+   "refused constraint; start(); addHead(5); end(out); query" (initial size 64) hands on and reports the fact "5." *)
+Example c11_refused_end_nonvacuous :
+  (forall cap, HDR <= cap -> exists c a a',
+     R c a /\ blits a = [(2, 1); (-3, 1)] /\ astep a (OEnd true true) = Some (a', [CRule 0 [] [2; -3]])) /\
+  run_case [3;0; 17;0;2; 17;0;-3; 8;0;2; 1;0;0; 6;0;5; 8;0;1; 13;0;1]
+  = [0; 0; 0; 3] ++ enc_call (CRule 0 [] [2; -3]) ++ [0; 0; 0] ++ enc_call (CRule 0 [5] [])
+    ++ [1; 5; 1; 0; -1; 0; 0] ++ [0; 1; 5; 0; 0] /\
+  arun (decode 19 [3;0; 17;0;2; 17;0;-3; 8;0;2; 1;0;0; 6;0;5; 8;0;1; 13;0;1])
+  = Some (run_case [3;0; 17;0;2; 17;0;-3; 8;0;2; 1;0;0; 6;0;5; 8;0;1; 13;0;1]).
+Proof.
+  split; [|split; vm_compute; reflexivity].
+  intros cap Hc.
+  destruct (sim_steps [OStartBody; OAddGoal 2 1; OAddGoal (-3) 1] (cnew cap) anew
+              (mkA false None (Some (0, -1, [(2, 1); (-3, 1)])) true) [] (R_new cap Hc)) as (c & _ & HR).
+  { vm_compute. reflexivity. }
+  exists c. eexists. eexists. split; [exact HR|]. split; vm_compute; reflexivity.
+Qed.
 
 (* Growth independence: the observation of an admissible history does not depend on the initial capacity, i.e. on
    when and how often the region is reallocated. *)
@@ -158,14 +224,14 @@ Theorem c11_protocol_total_refuted :
   exists ops, arun ops = None /\
     run RB_INIT_SIZE ops = [0; 0; 0; 0] ++ enc_call (CRule 0 [] [1]).
 Proof.
-  exists [MOp 0 OStartBody; MOp 0 (OStartSum 5); MOp 0 (OAddGoal 1 2); MOp 0 (OEnd true)].
+  exists [MOp 0 OStartBody; MOp 0 (OStartSum 5); MOp 0 (OAddGoal 1 2); MOp 0 (OEnd true false)].
   split; vm_compute; reflexivity.
 Qed.
 Print Assumptions c11_protocol_total_refuted.
 (* weaken(Count) on a minimize statement is not refused either: #minimize{1=4, 2=6}@3 becomes priority (3+3)/4 = 1 *)
 Example c11_tolerated_weaken_minimize :
-  arun [MOp 0 (OStartMin 3); MOp 0 (OAddGoal 1 4); MOp 0 (OAddGoal 2 6); MOp 0 (OWeaken 2 true); MOp 0 (OEnd true)] = None /\
-  run RB_INIT_SIZE [MOp 0 (OStartMin 3); MOp 0 (OAddGoal 1 4); MOp 0 (OAddGoal 2 6); MOp 0 (OWeaken 2 true); MOp 0 (OEnd true)]
+  arun [MOp 0 (OStartMin 3); MOp 0 (OAddGoal 1 4); MOp 0 (OAddGoal 2 6); MOp 0 (OWeaken 2 true); MOp 0 (OEnd true false)] = None /\
+  run RB_INIT_SIZE [MOp 0 (OStartMin 3); MOp 0 (OAddGoal 1 4); MOp 0 (OAddGoal 2 6); MOp 0 (OWeaken 2 true); MOp 0 (OEnd true false)]
   = [0; 0; 0; 0; 0] ++ enc_call (CMin 1 [(1, 1); (2, 1)]).
 Proof. split; vm_compute; reflexivity. Qed.
 
@@ -179,6 +245,6 @@ Example c11_history_nonvacuous :
   arun (decode (length demo) demo) = Some (run_case demo) /\ (length (run_case demo) > 100)%nat.
 Proof. split; vm_compute; [reflexivity | lia]. Qed.
 Example c11_protocol_nonvacuous :
-  exists obs ta, arun_st (mkT anew anew anew) [MOp 0 (OStart 0); MOp 0 (OAddHead 1); MOp 0 (OEnd false)] = Some (obs, ta)
+  exists obs ta, arun_st (mkT anew anew anew) [MOp 0 (OStart 0); MOp 0 (OAddHead 1); MOp 0 (OEnd false false)] = Some (obs, ta)
                  /\ detected (getb ta 0) (OAddGoal 2 1) = true.
 Proof. eexists; eexists; split; vm_compute; reflexivity. Qed.
